@@ -1,6 +1,15 @@
 
 // ==== appended by /verif/tools/kani_run.py (scratch copy only; never committed to /repo) ====
 #[cfg(kani)]
+impl DateTime {
+    /// (verification only) a DateTime with arbitrary, unrelated fields: the buffer logic of C17 must not depend on them
+    #[allow(dead_code)]
+    pub(crate) fn from_timespec_and_local_unchecked_for_verif(unix_time: i64, nanoseconds: u32, fields: (i32, u8, u8, u8, u8, u8), local_time_type: LocalTimeType) -> Self {
+        Self { year: fields.0, month: fields.1, month_day: fields.2, hour: fields.3, minute: fields.4, second: fields.5, local_time_type, unix_time, nanoseconds }
+    }
+}
+
+#[cfg(kani)]
 mod __verif_kani {
     use super::*;
 
